@@ -20,7 +20,7 @@ Lemma io_read_spec s cap :
       (runs_ok (chunks s) = true -> runs_ok (chunks s') = true)
   | ((c, Some e), s') =>
       concat (chunks s) = c /\ e = tail_err (stail s) /\ chunks s' = [] /\
-      stail s' = tail_next (stail s) /\ length c <= cap
+      stail s' = tail_next (stail s) /\ length c <= cap /\ length c <= weight (chunks s)
   end.
 Proof.
   intro Hcap. unfold io_read. destruct s as [cs wl t]. cbn [chunks with_last stail].
@@ -29,7 +29,7 @@ Proof.
   - destruct (Nat.leb_spec (length c) cap) as [Hle|Hgt].
     + destruct rest as [|c2 rest].
       * destruct wl; cbn [chunks with_last stail concat weight].
-        -- rewrite app_nil_r. repeat split; auto.
+        -- rewrite app_nil_r. repeat split; auto. lia.
         -- rewrite app_nil_r. repeat split; auto; try lia.
            intros ->. reflexivity.
       * cbn [chunks with_last stail]. repeat split; auto.
@@ -94,7 +94,8 @@ Section Contract.
                         wt x' + length c < wt x /\ length c <= cap /\
                         (c = [] -> lead x' < lead x)
       | ((c, Some e), x') =>
-          data = c /\ e = tail_err t /\ Rep x' [] (tail_next t) /\ length c <= cap /\ wt x' <= wt x
+          data = c /\ e = tail_err t /\ Rep x' [] (tail_next t) /\ length c <= cap /\
+          wt x' + length c <= wt x
       end.
 End Contract.
 
@@ -115,7 +116,7 @@ Proof.
   intros s data t cap (Hc&Ht&Hr) Hcap. split; [apply runs_ok_lead; exact Hr|].
   pose proof (io_read_spec s cap Hcap) as H. unfold src_rep, src_wt, src_lead.
   destruct (io_read s cap) as [[c [e|]] s'].
-  - destruct H as (H1&H2&H3&H4&H5). subst. rewrite H3, H4. simpl. repeat split; auto. lia.
+  - destruct H as (H1&H2&H3&H4&H5&H6). subst. rewrite H3, H4. simpl. repeat split; auto.
   - destruct H as (H1&H2&H3&H4&H5&H6). exists (concat (chunks s')). subst.
     repeat split; auto. intro Hn. specialize (H5 Hn). lia.
 Qed.
@@ -150,7 +151,7 @@ Section BufioProofs.
     assert (Hcap : 0 < N - length d) by lia.
     destruct (Hok x rest t (N - length d) HR Hcap) as [Hle H].
     destruct (sread x (N - length d)) as [[c [e|]] x'].
-    - destruct H as (H1&H2&H3&H4&H5). subst. repeat split; auto. rewrite app_length. lia.
+    - destruct H as (H1&H2&H3&H4&H5). subst. repeat split; auto; try lia. rewrite app_length. lia.
     - destruct H as (rest'&H1&H2&H3&H4&H5). destruct c as [|c0 c]; cbn [is_nil].
       + specialize (H5 eq_refl). simpl in H1. subst rest'.
         specialize (IH d x' rest t H2 ltac:(lia) Hd).
